@@ -248,13 +248,18 @@ impl<Endpoint: Ord + Clone> BlockHandler<Endpoint> {
             .chunks(request_block_size)
             .skip(usize::from(request_block2.num));
 
-        let cached_payload_chunk = chunks.next().ok_or_else(|| {
-            HandlingError::bad_request(format!(
-                "num={}, block_size={}",
-                request_block2.num,
-                request_block2.size()
-            ))
-        })?;
+        let cached_payload_chunk = match chunks.next() {
+            Some(chunk) => chunk,
+            // An empty body still has a first (empty, final) block.
+            None if request_block2.num == 0 => &[],
+            None => {
+                return Err(HandlingError::bad_request(format!(
+                    "num={}, block_size={}",
+                    request_block2.num,
+                    request_block2.size()
+                )))
+            }
+        };
 
         let response_payload = &mut response.message.payload;
         response_payload.clear();
